@@ -421,6 +421,7 @@ package jsonpatch
 //@   bind v = value#2.0
 //@   let neg = options.SupportNegativeIndices
 //@   ensures[C08] missing-parent: reached(findObject#1) && con == nil ==> isMissing(err)
+//@   ensures[C01,C08] success-means-stored: err == nil ==> reached(add#1) || reached(UnmarshalValid#1)
 //@   ensures[C01] object-member-set: reached(findObject#1) && con != nil && isDoc(con) && docOf(con).obj != nil ==> err == nil && key in docOf(con).obj && docOf(con).obj[key] == v
 //@   ensures[C01] array-ok-iff: reached(findObject#1) && con != nil && isAry(con) ==> ((err == nil) <==> idxAddOK(key, at(findObject#1, len(aryOf(con).nodes)), neg))
 //@   ensures[C01] array-inserted: reached(findObject#1) && con != nil && isAry(con) && err == nil ==> len(aryOf(con).nodes) == at(findObject#1, len(aryOf(con).nodes)) + 1 && aryOf(con).nodes[idxAddVal(key, at(findObject#1, len(aryOf(con).nodes)))] == v
@@ -437,6 +438,7 @@ package jsonpatch
 //@   let neg = options.SupportNegativeIndices
 //@   let allow = options.AllowMissingPathOnRemove
 //@   ensures[C08,C13] missing-parent: reached(findObject#1) && con == nil && !allow ==> isMissing(err)
+//@   ensures[C01,C08,C13] success-means-removed-or-skipped: err == nil ==> reached(remove#1) || (reached(findObject#1) && con == nil && allow)
 //@   ensures[C13] missing-parent-skipped: reached(findObject#1) && con == nil && allow ==> err == nil
 //@   ensures[C01,C13] object-member-removed: reached(findObject#1) && con != nil && isDoc(con) && at(findObject#1, key in docOf(con).obj) ==> err == nil && !(key in docOf(con).obj)
 //@   ensures[C08,C13] object-member-absent: reached(findObject#1) && con != nil && isDoc(con) && docOf(con).obj != nil && !at(findObject#1, key in docOf(con).obj) ==> (allow ==> err == nil) && (!allow ==> err != nil && isMissing(err)) && docOf(con).keys == at(findObject#1, docOf(con).keys)
@@ -454,7 +456,8 @@ package jsonpatch
 //@   bind v = value#2.0
 //@   let neg = options.SupportNegativeIndices
 //@   ensures[C08] missing-parent: reached(findObject#1) && con == nil ==> isMissing(err)
-//@   ensures[C01,C08] missing-member: reached(findObject#1) && con != nil && key != "" && (isDoc(con) || isAry(con)) && (isDoc(con) ==> docOf(con).obj != nil) && !at(findObject#1, conHas(con, key, neg)) ==> err != nil && isMissing(err)
+//@   ensures[C01,C08,C13] success-means-replaced: err == nil ==> reached(set#1) || reached(value#1)
+//@   ensures[C01,C08,C13] missing-member: reached(findObject#1) && con != nil && key != "" && (isDoc(con) || isAry(con)) && (isDoc(con) ==> docOf(con).obj != nil) && !at(findObject#1, conHas(con, key, neg)) ==> err != nil && isMissing(err)
 //@   ensures[C01,C05] object-member-replaced: reached(findObject#1) && con != nil && isDoc(con) && at(findObject#1, key in docOf(con).obj) && key != "" ==> err == nil && docOf(con).obj[key] == v && docOf(con).keys == at(findObject#1, docOf(con).keys)
 //@   ensures[C01] array-element-replaced: reached(findObject#1) && con != nil && isAry(con) && key != "" && idxRefOK(key, at(findObject#1, len(aryOf(con).nodes)), neg) ==> err == nil && len(aryOf(con).nodes) == at(findObject#1, len(aryOf(con).nodes)) && aryOf(con).nodes[idxRefVal(key, len(aryOf(con).nodes))] == v
 //@   ensures[C01] value-is-patch-value: reached(value#2) ==> v != nil && v.raw != nil && (op["value"] != nil ==> v.raw == op["value"]) && (op["value"] == nil ==> kind(val(*v.raw)) == KNull)
@@ -472,7 +475,8 @@ package jsonpatch
 //@   let neg = options.SupportNegativeIndices
 //@   ensures[C08] missing-parent: reached(findObject#1) && con != nil || !reached(findObject#1) || isMissing(err)
 //@   ensures[C08] missing-destination: reached(findObject#2) && dst == nil ==> isMissing(err)
-//@   ensures[C01] missing-source: reached(findObject#1) && con != nil && key != "" && (isDoc(con) ==> docOf(con).obj != nil) && (isDoc(con) || isAry(con)) && !at(findObject#1, conHas(con, key, neg)) ==> err != nil
+//@   ensures[C01,C08,C13] success-means-moved: err == nil ==> reached(add#1)
+//@   ensures[C01,C13] missing-source: reached(findObject#1) && con != nil && key != "" && (isDoc(con) ==> docOf(con).obj != nil) && (isDoc(con) || isAry(con)) && !at(findObject#1, conHas(con, key, neg)) ==> err != nil
 //@   ensures[C01,C08] removed-before-resolving-object: reached(findObject#2) && isDoc(con) && key != "" ==> pre(findObject#2, !(key in docOf(con).obj))
 //@   ensures[C01,C08] removed-before-resolving-array: reached(findObject#2) && isAry(con) && key != "" ==> pre(findObject#2, len(aryOf(con).nodes)) == at(findObject#1, len(aryOf(con).nodes)) - 1
 //@   ensures[C01] object-destination: reached(findObject#2) && dst != nil && isDoc(dst) && docOf(dst).obj != nil && key != "" ==> err == nil && dstKey in docOf(dst).obj && docOf(dst).obj[dstKey] == at(findObject#1, conAt(con, key))
@@ -490,11 +494,12 @@ package jsonpatch
 //@   bind key = findObject#1.1
 //@   let neg = options.SupportNegativeIndices
 //@   ensures[C08] missing-parent: reached(findObject#1) && con == nil ==> isMissing(err) && !isTestFailed(err)
-//@   ensures[C01] absent-member-is-null: reached(findObject#1) && con != nil && isDoc(con) && docOf(con).obj != nil && key != "" && !at(findObject#1, key in docOf(con).obj) ==> ((err == nil) <==> valueIsNull(op))
+//@   ensures[C01,C08] success-means-compared: err == nil ==> reached(equal#1) || reached(equal#2) || reached(isNull#1) || reached(isNull#3)
+//@   ensures[C01,C13] absent-member-is-null: reached(findObject#1) && con != nil && isDoc(con) && docOf(con).obj != nil && key != "" && !at(findObject#1, key in docOf(con).obj) ==> ((err == nil) <==> valueIsNull(op))
 //@   ensures[C01] stored-null-is-null: reached(findObject#1) && con != nil && key != "" && at(findObject#1, conHas(con, key, neg) && childIsNull(conAt(con, key))) ==> ((err == nil) <==> valueIsNull(op))
 //@   ensures[C01,C08] mismatch-is-test-failed: reached(findObject#1) && con != nil && key != "" && at(findObject#1, conHas(con, key, neg) && childIsNull(conAt(con, key))) && !valueIsNull(op) ==> isTestFailed(err)
 //@   ensures[C08] null-vs-value: reached(findObject#1) && con != nil && key != "" && at(findObject#1, conHas(con, key, neg) && !childIsNull(conAt(con, key))) && valueIsNull(op) ==> isTestFailed(err)
-//@   ensures[C08] bad-index-is-not-test-failed: reached(findObject#1) && con != nil && isAry(con) && key != "" && !at(findObject#1, conHas(con, key, neg)) ==> err != nil && !isTestFailed(err)
+//@   ensures[C08,C13] bad-index-is-not-test-failed: reached(findObject#1) && con != nil && isAry(con) && key != "" && !at(findObject#1, conHas(con, key, neg)) ==> err != nil && !isTestFailed(err)
 
 //@ func (Patch).copy
 //@   callees[C01,C08] From, findObject, get, Path, deepCopy, NewAccumulatedCopySizeError, add
@@ -516,6 +521,7 @@ package jsonpatch
 //@   let neg = options.SupportNegativeIndices
 //@   ensures[C08] missing-parent: reached(findObject#1) && con == nil ==> isMissing(err) && !isCopyLimit(err)
 //@   ensures[C08] missing-destination: reached(findObject#2) && dst == nil ==> isMissing(err) && !isCopyLimit(err)
+//@   ensures[C01,C08,C13] success-means-copied: err == nil ==> reached(add#1)
 //@   ensures[C12] accumulated: reached(deepCopy#1) && dcErr == nil ==> *accumulatedCopySize == old(*accumulatedCopySize) + sz
 //@   ensures[C12] not-accumulated: !reached(deepCopy#1) || dcErr != nil ==> *accumulatedCopySize == old(*accumulatedCopySize)
 //@   ensures[C08,C12] limit-iff: isCopyLimit(err) <==> (reached(deepCopy#1) && dcErr == nil && limit > 0 && *accumulatedCopySize > limit)
@@ -584,6 +590,10 @@ package jsonpatch
 //@   callsite[C14] add#2 array-stored-under-decoded-token: arg_key == unescape(part)
 //@   callsite[C14] add#4 object-stored-under-decoded-token: arg_key == unescape(part)
 //@   callsite[C14] add#1 padding-appends: arg_key == itoa(i)
+//@   callsite[C14,C15] intoDoc#1 a-created-object-is-parsed-with-the-call-options: arg_n == newNode && arg_options == options
+//@   callsite[C14,C15] intoDoc#2 an-existing-object-is-parsed-with-the-call-options: arg_n == target && arg_options == options
+//@   callsite[C14] intoAry#1 a-created-array-is-parsed: arg_n == newNode
+//@   callsite[C14] intoAry#2 an-existing-array-is-parsed: arg_n == target
 //@   callsite[C14] add#3 new-array-padding-appends: arg_key == itoa(i)
 //@   loop 1
 //@   invariant container: conOK(doc) && conOK(*pd) && *pd == old(*pd)
@@ -616,6 +626,12 @@ package jsonpatch
 //@   callsite[C01,C08] move#1 move-operations-are-applied-by-move-in-patch-order: opKind(op) == "move" && arg_op == op && op == p[rangeindex + 1]
 //@   callsite[C01,C08] test#1 test-operations-are-applied-by-test-in-patch-order: opKind(op) == "test" && arg_op == op && op == p[rangeindex + 1]
 //@   callsite[C01,C08] copy#1 copy-operations-are-applied-by-copy-in-patch-order: opKind(op) == "copy" && arg_op == op && op == p[rangeindex + 1]
+//@   covers[C01,C08] add#1 no-add-operation-is-skipped: opKind(op) == "add"
+//@   covers[C01,C08] remove#1 no-remove-operation-is-skipped: opKind(op) == "remove"
+//@   covers[C01,C08] replace#1 no-replace-operation-is-skipped: opKind(op) == "replace"
+//@   covers[C01,C08] move#1 no-move-operation-is-skipped: opKind(op) == "move"
+//@   covers[C01,C08] test#1 no-test-operation-is-skipped: opKind(op) == "test"
+//@   covers[C01,C08] copy#1 no-copy-operation-is-skipped: opKind(op) == "copy"
 //@   modifies region(lazyNode.which), region(lazyNode.doc), region(lazyNode.ary), region(lazyNode.raw), region(partialDoc.obj), region(partialDoc.keys), region(partialDoc.opts), region(partialDoc.self), region(partialArray.nodes), region(partialArray.self), region(elem string), region(elem *lazyNode), region(map map[string]*lazyNode), region(cell int64), region(cell container), region(cell any), region(json.scanner.step), region(json.scanner.err), region(json.scanner.endTop), region(json.scanner.bytes), region(json.scanner.parseState), region(elem int), ghost(BufContent)
 //@   requires options: options != nil
 //@   requires patch: patchOK(p) && (forall j int {p[j]} :: 0 <= j && j < len(p) ==> validOp(p[j]))
@@ -678,6 +694,9 @@ package jsonpatch
 //@   bind e2 = intoDoc#2.1
 //@   ensures[C02,C07] a-non-object-is-replaced-by-the-patch: (reached(intoDoc#1) && e1 != nil) || (reached(intoDoc#2) && e2 != nil) ==> result == patch
 //@   ensures[C02,C07] two-objects-are-merged-in-place: reached(intoDoc#2) && e2 == nil ==> result == cur && reached(mergeDocs#1)
+//@   ensures[C02,C07] the-current-value-is-kept-only-after-merging-into-it: result == cur && cur != patch ==> reached(mergeDocs#1)
+//@   callsite[C02,C07] intoDoc#1 the-current-value-is-examined-first: arg_n == cur
+//@   callsite[C02,C07] intoDoc#2 then-the-patch: arg_n == patch
 //@   callees[C02,C07] intoDoc, pruneNulls, mergeDocs
 //@   callsite[C02,C07] pruneNulls#1 prunes-only-a-patch-that-replaces-a-non-object: err != nil
 //@   requires nodes: cur != nil && patch != nil && childOK(cur) && childOK(patch) && options != nil
@@ -694,6 +713,8 @@ package jsonpatch
 //@   callees[C02,C05,C07] remove, pruneNulls, set, merge
 //@   callsite[C02,C07] pruneNulls#1 new-member-pruned-only-when-applying: !mergeMerge
 //@   callsite[C02,C05,C07] remove#1 null-deletes-only-when-applying: !mergeMerge && arg_key == k
+//@   covers[C02] remove#1 a-null-member-always-deletes-when-applying: v == nil && !mergeMerge
+//@   covers[C02,C07] set#1|set#2 a-non-null-member-is-always-stored: v != nil
 //@   callsite[C02,C07] set#1 new-member-stored: arg_key == k && arg_val == v
 //@   callsite[C02] set#1 a-member-taken-over-from-the-patch-is-pruned-when-applying: !mergeMerge ==> noNilMembers(v)
 //@   callsite[C02,C07] set#2 merged-member-stored: arg_key == k
